@@ -83,6 +83,12 @@ def ev(v, val, hooks=None):
                     raise Raised('ValueError')
                 except TypeError:
                     raise Raised('TypeError')
+            if name == 'ast.literal_eval':
+                import ast as _ast
+                try:
+                    return _ast.literal_eval(args[0])
+                except (ValueError, SyntaxError, TypeError) as e:
+                    raise Raised(type(e).__name__)
             if name == 'math.ceil':
                 return math.ceil(args[0])
             if name == 'pow':
@@ -96,6 +102,18 @@ def ev(v, val, hooks=None):
                     'lower', 'upper', 'strip', 'startswith', 'endswith',
                     'lstrip', 'rstrip', 'replace', 'split', 'count'):
                 return getattr(base, a[1])(*args)
+        if op == 'raises':
+            try:
+                ev(a[0], val, hooks)
+            except Raised as r:
+                return r.name == a[1]
+            return False
+        if op == 'defined':
+            try:
+                ev(a[0], val, hooks)
+            except Raised:
+                return False
+            return True
         if op == 'item':
             return ev(a[0], val, hooks)[ev(a[1], val, hooks)]
         if op == 'sub':
@@ -104,7 +122,19 @@ def ev(v, val, hooks=None):
             except (IndexError, KeyError) as e:
                 raise Raised(type(e).__name__)
         if op == 'isinstance':
-            raise CannotEval('isinstance on %s' % show(a[0]))
+            from .models import PY_TYPES
+            from .values import ExtRef
+            x = ev(a[0], val, hooks)
+            res = False
+            for ty in a[1].args:
+                if isinstance(ty, ExtRef) and ty.name in PY_TYPES:
+                    res = res or isinstance(x, PY_TYPES[ty.name])
+                elif isinstance(ty, ExtRef) and ty.name == \
+                        'collections.abc.Mapping':
+                    res = res or isinstance(x, dict)
+                else:
+                    raise CannotEval('isinstance against %r' % (ty,))
+            return res
         raise CannotEval('no valuation for %s' % show(v))
     if isinstance(v, TupleV):
         return tuple(ev(x, val, hooks) for x in v.items)
